@@ -19,6 +19,9 @@ pub struct C01 {
     uf: BTreeMap<(usize, u32), (usize, u32)>,
     pub saw_collection: bool,
     pub saw_safe_read: bool,
+    /// Set when a compound call could not be attributed to primitive events (its structure did
+    /// not match what was demanded): from then on this history is not judged any more.
+    pub abandoned: bool,
 }
 
 impl C01 {
@@ -75,7 +78,15 @@ impl C01 {
 }
 
 impl HistMonitor for C01 {
-    fn after(&mut self, s: &mut Session, op: &Op, o: &mut Outcome, _ctx: &mut Ctx) -> Option<String> {
+    fn after(&mut self, s: &mut Session, op: &Op, o: &mut Outcome, ctx: &mut Ctx) -> Option<String> {
+        if self.abandoned {
+            return None;
+        }
+        if o.adopt_error.is_some() {
+            // the removal rule below needs no attribution and is still applied to this call
+            self.abandoned = true;
+            ctx.c.inc("c01.history-abandoned-unattributable-compound-call");
+        }
         let before: BTreeSet<usize> = o.keys_before.iter().copied().collect();
         let after: BTreeSet<usize> = o.keys_after.iter().copied().collect();
         let removed: Vec<usize> = before.difference(&after).copied().collect();
@@ -169,7 +180,7 @@ impl HistMonitor for C01 {
     }
 
     fn nontrivial(&self, _st: &HistStats) -> bool {
-        self.saw_collection && self.saw_safe_read
+        self.saw_collection && self.saw_safe_read && !self.abandoned
     }
 }
 
@@ -663,13 +674,7 @@ impl HistMonitor for C05 {
             }
             Op::SaveLoad { swap: true } => self.returned.clear(),
             Op::Merge { .. } => {
-                // ids of the vertices merge created (taken from the real graph by the path walk)
-                let mut ids = vec![];
-                for p in &o.prims {
-                    if let Prim::NextId(id) = p {
-                        ids.push(*id);
-                    }
-                }
+                // facts only: the ids that appeared during the call are allocator results
                 let before: BTreeSet<usize> = o.keys_before.iter().copied().collect();
                 let after: BTreeSet<usize> = o.keys_after.iter().copied().collect();
                 let created: Vec<usize> = after.difference(&before).copied().collect();
@@ -678,49 +683,30 @@ impl HistMonitor for C05 {
                         return Some(m);
                     }
                 }
+                // an edge the left graph lacked now leads to a vertex that was present before:
+                // the "new" vertex coincides with a present one
                 if let Some(e) = &o.adopt_error {
                     if e.contains("already present") {
                         return Some(format!("{}: {e}", op.show()));
                     }
                 }
-                if o.adopt_error.is_none() && created.len() != ids.len() {
-                    return Some(format!(
-                        "merge() had to create {} vertices but {} new ids appeared ({created:?})",
-                        ids.len(),
-                        created.len()
-                    ));
-                }
             }
-            Op::Script { .. } => {
+            Op::Script { cmds, .. } => {
+                // facts only: ids that appeared and were not added literally are variable ids
                 let before: BTreeSet<usize> = o.keys_before.iter().copied().collect();
                 let after: BTreeSet<usize> = o.keys_after.iter().copied().collect();
-                let created: BTreeSet<usize> = after.difference(&before).copied().collect();
-                let mut want = BTreeSet::new();
-                let mut var_ids = 0;
-                for p in &o.prims {
-                    match p {
-                        Prim::Add(v) if !before.contains(v) => {
-                            want.insert(*v);
-                        }
-                        Prim::NextId(_) => var_ids += 1,
-                        _ => {}
+                let mut literal = BTreeSet::new();
+                for c in cmds {
+                    if let crate::ops::Cmd::Add(crate::ops::Ident::Lit(v)) = c {
+                        literal.insert(*v);
                     }
                 }
-                if var_ids > 0 && created.len() < want.len() {
-                    return Some(format!(
-                        "script with {var_ids} variables had to create {} vertices but only {} appeared: a variable coincided with a present vertex",
-                        want.len(),
-                        created.len()
-                    ));
-                }
-                // ids the variables received (allocator results): must be fresh in the lineage
-                for p in &o.prims {
-                    if let Prim::NextId(id) = p {
-                        if created.contains(id) {
-                            if let Some(m) = check(&mut self.returned, *id, "a script variable") {
-                                return Some(m);
-                            }
-                        }
+                for id in after.difference(&before) {
+                    if literal.contains(id) {
+                        continue;
+                    }
+                    if let Some(m) = check(&mut self.returned, *id, "a script variable") {
+                        return Some(m);
                     }
                 }
             }
